@@ -600,8 +600,25 @@ class Engine:
             todo.extend(t.children())
             if len(seen) > 200000:
                 break
-        for _ in range(1, k):
+        ints = [v for v in vars_ if z3.is_int(v)]
+        for _j in range(1, k):
             depth = 0
+            if _j == 1 and len(ints) > 1:
+                # the second witness: inputs also differ from one another where the path allows it (two hosts, two ids, ...)
+                s.push()
+                s.add(z3.Distinct(*ints))
+                if str(s.check()) == "sat":
+                    depth += 1
+                else:
+                    s.pop()
+                    # at least neighbouring inputs differ
+                    for a, b in zip(ints, ints[1:]):
+                        s.push()
+                        s.add(a != b)
+                        if str(s.check()) == "sat":
+                            depth += 1
+                        else:
+                            s.pop()
             for m in out:
                 stack = [[v != m.eval(v, model_completion=True) for v in vars_]]
                 budget = 10
